@@ -100,6 +100,8 @@ def registry():
 
 
 def write_evidence(ctx, violations, known):
+    if env.REPO != "/repo":
+        return   # a run against a scratch copy (mutant / selftest) is not evidence about /repo
     os.makedirs(env.EVIDENCE, exist_ok=True)
     cov = {
         "states": ctx.states,
